@@ -13,6 +13,14 @@ for g in gens.ALL:
         print('gen', g.__module__, g())
     except Exception as ex:
         print('gen failed', g.__module__, type(ex).__name__, ex)
+# root module imports every module of the project, so that one `lake build` checks everything
+mods = []
+for sub in ('Model', 'Gen', 'Proofs', 'Props', 'Drv'):
+    d = os.path.join(V, 'lean', 'KyupyVerif', sub)
+    for fn in sorted(os.listdir(d)):
+        if fn.endswith('.lean'): mods.append(f'import KyupyVerif.{sub}.{fn[:-5]}')
+with open(os.path.join(V, 'lean', 'KyupyVerif.lean'), 'w') as f:
+    f.write('\n'.join(mods) + '\n')
 p = subprocess.run(['lake', 'build'], cwd=os.path.join(V, 'lean'))
 print('setup done rc', p.returncode, round(time.time() - t0, 1), 's')
 sys.exit(0)
